@@ -47,7 +47,7 @@ def _min_dtype_for_encoding(data_encoding: encodings.DataEncoding):
     elif isinstance(data_encoding, encodings.FloatDataEncoding):
         nbits = data_encoding.size_in_bits
         datatype = "float"
-        if nbits == 32:
+        if nbits == 32 and data_encoding.encoding != "MILSTD_1750A":
             datatype += "32"
         else:
             datatype += "64"
